@@ -349,7 +349,7 @@ func init() {
 		Assumptions: []string{"one upstream connection per subscription, dialled in start order", "connections are explored one after the other, not overlapping; a downstream call made through a queryer that was created for a client connection which has ended fails (as with the default factory's request-bound context)"},
 		Budget: func(tier string) time.Duration {
 			if tier == "quick" {
-				return 70 * time.Second
+				return 120 * time.Second
 			}
 			return 12 * time.Minute
 		},
